@@ -50,7 +50,9 @@ class Diagonalization(Function):
 
         mins = torch.diagonal(t_mat, dim1=-1, dim2=-2).min(dim=-1, keepdim=True)[0]
         jitter_val = settings.tridiagonal_jitter.value()
-        jitter_mat = torch.diag_embed(jitter_val * mins).expand_as(t_mat)
+        # jitter on the diagonal only (diag_embed of the (..., 1) minimum would be a 1 x 1 matrix that expand_as
+        # broadcasts to EVERY entry of t_mat)
+        jitter_mat = torch.diag_embed((jitter_val * mins).expand(*mins.shape[:-1], t_mat.size(-1)))
         eigenvalues, eigenvectors = lanczos.lanczos_tridiag_to_diag(t_mat + jitter_mat)
 
         # Get orthogonal matrix and eigenvalues
